@@ -43,7 +43,10 @@ class Run:
         self.tier = tier
         self.seed = seed
         self.t0 = time.time()
-        self.workdir = os.path.join(WORK, pid)
+        # runs against a scratch tree (VERIF_REPO, used for seeded changes) get their own scratch dir and do
+        # not overwrite the evidence of the real tree
+        self.alt_repo = os.environ.get("VERIF_REPO", "/repo") not in ("/repo", "")
+        self.workdir = os.path.join(WORK, pid if not self.alt_repo else pid + "_alt" + str(abs(hash(os.environ["VERIF_REPO"])) % 100000))
         if os.path.isdir(self.workdir):
             shutil.rmtree(self.workdir, ignore_errors=True)
         os.makedirs(self.workdir, exist_ok=True)
@@ -197,6 +200,8 @@ class Run:
         return rc
 
     def write_evidence(self, wall: float, nviol: int) -> None:
+        if self.alt_repo:
+            return
         cov = {
             "states": int(self.states),
             "transitions": int(self.transitions),
